@@ -60,7 +60,13 @@ func judge(w witness) kit.Result {
 		if off+n > L {
 			if off == p.Off && n == p.Len {
 				// right for the untrimmed text, but the text was trimmed and this entity was not clamped
-				return kit.Bad("beyond-text:not-clamped-after-trim", "%s", ctx)
+				which := "earlier-entity" // nested / overlapping entity created before the last block
+				for _, k := range r.LastGroup {
+					if k == p.Kind {
+						which = "last-block-entity" // the builder's own rule covers it, yet it was skipped
+					}
+				}
+				return kit.Bad("beyond-text:not-clamped-after-trim:"+which, "%s", ctx)
 			}
 			return kit.Bad("beyond-text:other", "%s", ctx)
 		}
